@@ -278,8 +278,8 @@ impl Dgram {
                             (boundary - hdr as i64 - if *ietf { 12 } else { 0 } - *minus as i64) as u32
                         }
                     };
-                    // header words after the count: offsets then tags
-                    let w = off + 1 + (*wi as usize % (2 * n).max(1));
+                    // header words after the count: n-1 offsets, then n tags; offsets are targeted 70% of the time
+                    let w = if *wi < 180 && n >= 2 { off + 1 + (*wi as usize % (n - 1)) } else { off + 1 + (n - 1) + (*wi as usize % n.max(1)) };
                     setw(&mut b, w, val);
                 }
                 b
@@ -367,9 +367,10 @@ fn crafted() -> impl Strategy<Value = Dgram> {
     let wv = prop_oneof![
         2 => prop::sample::select(vec![0u32, 4, 32, 64, 68, 960, 1000, 1008, 1024, 1500, 4096, 65_472, 65_536, 0xffff_fffc]).prop_map(WordVal::Abs),
         2 => (0u32..16_400).prop_map(|w| WordVal::Abs(w * 4)),
-        4 => (0u8..6, prop::sample::select(vec![0u16, 4, 8, 32, 36, 64, 68, 96, 128])).prop_map(|(b, m)| WordVal::RelEnd(b, m)),
+        4 => (prop_oneof![2 => 0u8..5, 1 => Just(5u8)], prop::sample::select(vec![0u16, 4, 8, 32, 36, 64, 68, 96, 128])).prop_map(|(b, m)| WordVal::RelEnd(b, m)),
     ];
-    (any::<bool>(), proptest::collection::vec((0u8..18, 0u8..6), 0..=4), prop_oneof![3 => Just(1024u32), 1 => (256u32..=375).prop_map(|w| w * 4), 1 => 1000u32..=1520], proptest::collection::vec((any::<u8>(), wv), 0..=3))
+    // tags before NONC (SIG, VER, SRV) are favoured so that NONC is often the last field (its end = end of buffer)
+    (any::<bool>(), proptest::collection::vec((prop_oneof![1 => 0u8..3, 1 => 0u8..18], 0u8..6), 0..=4), prop_oneof![3 => Just(1024u32), 1 => (256u32..=375).prop_map(|w| w * 4), 1 => 1000u32..=1520], proptest::collection::vec((any::<u8>(), wv), 0..=3))
         .prop_map(|(ietf, fields, len, words)| Dgram::Crafted { ietf, fields, len, words })
 }
 
